@@ -698,6 +698,8 @@ def post_cases(draw):
         for _ in range(draw(st.sampled_from([0, 1, 1, 1, 2]))):
             if draw(st.integers(0, 3)) == 0:
                 conds.append({"type": "logsource", "category": draw(st.sampled_from(["proc", "net"]))})
+            elif draw(st.integers(0, 4)) == 0:
+                conds.append({"type": "processing_state", "key": "k", "val": draw(st.sampled_from(["proc", "other"]))})
             else:
                 # mostly the item directly before (the common 'if the previous step ran' idiom)
                 ref = ids[-1] if draw(st.booleans()) else draw(st.sampled_from(ids))
@@ -706,7 +708,7 @@ def post_cases(draw):
         ids.append("p%d" % i)
         if typ == "nest":
             ids.append("in%d" % i)
-    return {"kind": "post", "items": items, "two_conditions": draw(st.booleans())}
+    return {"kind": "post", "items": items, "two_conditions": draw(st.booleans()), "nest_state": draw(st.booleans())}
 
 
 def check_post_case(case: dict) -> Outcome:
@@ -729,10 +731,16 @@ def check_post_case(case: dict) -> Outcome:
             det["sel2"] = {"g": "w"}
             det["condition"] = ["sel", "sel2"]
         docs.append({"title": "rule " + cat, "logsource": {"category": cat}, "detection": det})
-    pd = {"transformations": [{"id": "pre0", "type": "field_name_suffix", "suffix": "_x", "rule_conditions": [{"type": "logsource", "category": "proc"}]}],
+    pd = {"transformations": [{"id": "pre0", "type": "field_name_suffix", "suffix": "_x", "rule_conditions": [{"type": "logsource", "category": "proc"}]},
+                              {"id": "pre1", "type": "set_state", "key": "k", "val": "proc", "rule_conditions": [{"type": "logsource", "category": "proc"}]}],
           "postprocessing": []}
+    nest_state = bool(case.get("nest_state"))
+    if nest_state:
+        out.label("state-condition-inside-nest")
     for i, it in enumerate(case["items"]):
         d = dict(_post_spec(i, it["typ"]), id="p%d" % i)
+        if it["typ"] == "nest" and nest_state:   # the item inside the nest looks at the pipeline state itself
+            d["items"][0]["rule_conditions"] = [{"type": "processing_state", "key": "k", "val": "proc"}]
         if it["conds"]:
             d["rule_conditions"] = copy.deepcopy(it["conds"])
             d["rule_cond_op"] = it["op"]
@@ -741,20 +749,23 @@ def check_post_case(case: dict) -> Outcome:
         pd["postprocessing"].append(d)
     expected = []
     for cat in ("proc", "net"):
-        applied = {"pre0"} if cat == "proc" else set()
+        applied = {"pre0", "pre1"} if cat == "proc" else set()
         sfx = "_x" if cat == "proc" else ""
         for q in (['f%s="v"' % sfx, 'g%s="w"' % sfx] if case["two_conditions"] else ['f%s="v"' % sfx]):
             for i, it in enumerate(case["items"]):
-                vals = [(c["processing_item_id"] in applied) if c["type"] == "processing_item_applied" else (c["category"] == cat) for c in it["conds"]]
+                vals = [(c["processing_item_id"] in applied) if c["type"] == "processing_item_applied" else (
+                    (cat == "proc" and c["val"] == "proc") if c["type"] == "processing_state" else (c["category"] == cat)) for c in it["conds"]]
                 if it["conds"]:
                     res = all(vals) if it["op"] == "and" else any(vals)
                     hit = (not res) if it["not"] else res
                 else:
                     hit = True      # an item without conditions always applies
                 if hit:
-                    q = _post_model(i, it["typ"], q)
+                    inner = it["typ"] != "nest" or not nest_state or cat == "proc"
+                    if inner:
+                        q = _post_model(i, it["typ"], q)
                     applied.add("p%d" % i)
-                    if it["typ"] == "nest":
+                    if it["typ"] == "nest" and inner:
                         applied.add("in%d" % i)
             expected.append(q)
     try:
